@@ -22,7 +22,8 @@ from props.c08 import gen as gen_c08, KINDS
 
 THEOREMS = ['C07_exit0_all_applied', 'C07_no_error_dropped', 'C07_failure_is_reported', 'C07_summary_is_census', 'C07_only_planned_changes', 'C07_only_planned_changes_unconditional',
             'C07_async_ok_sound', 'C07_async_no_error_lost', 'C07_async_prefix', 'C07_async_ok_agrees_with_sync', 'C07_async_covered_by_sync',
-            'C07_spec_exit0_iff_all_ok', 'C07_spec_failure_is_last', 'C07_spec_runs_are_syncs']
+            'C07_spec_exit0_iff_all_ok', 'C07_spec_failure_is_last', 'C07_spec_runs_are_syncs',
+            'C07_any_sequence_touches_only_named_paths', 'C07_any_sequence_keeps_the_tree_well_formed', 'C07_any_sequence_error_leaves_tree']
 
 
 def hidden(sc, p):
